@@ -16,7 +16,7 @@ def random_feature(rng, ctx):
     where = None
     if ctx.sph:
         where = (wg.R(rng.uniform(-150, 150)), wg.R(rng.uniform(-40, 40)), wg.R(rng.uniform(4, 10)))
-    opts = {'p_temperature': 0.5, 'p_composition': 0.0, 'p_grains': 0.0, 'p_velocity': 0.0, 'sections': False, 'segment_models': False, 'ncoords': rng.choice([2, 3]), 'max_bend': 20.0}
+    opts = {'p_temperature': 0.5, 'p_composition': 0.0, 'p_grains': 0.0, 'p_velocity': 0.5, 'sections': False, 'segment_models': False, 'ncoords': rng.choice([2, 3]), 'max_bend': 20.0}
     f, t = wg.gen_feature(rng, ctx, ftype, 0, NCOMP, opts, where)
     f = wg.strip(f)
     kmin, kmax = wg.range_keys(ftype)
@@ -83,7 +83,7 @@ def main(tier, seed, replay):
     V = core.Verdict(PID, tier, seed)
     V.coverage['rule'] = ('single-feature worlds of every feature type with a random grains model (and random composition for continental plates); per world five instances in one process: A and its twin B (same constructor '
                           'seed), C (another seed), D (seed given by the random number seed entry, any constructor seed), E (the file again with the first seed, queried after the others); the same history of 40-80 calls '
-                          '(grains with 1-200 grains, batched lists, compositions) interleaved call by call; twins and D bit-identical, C differs in at least one drawn value; every orientation a proper rotation, '
+                          '(grains with 1-200 grains, batched lists with compositions and velocity blocks, 3D and - along a cross section through the feature - 2D entry point) interleaved call by call; twins and D bit-identical, C differs in at least one drawn value; every orientation a proper rotation, '
                           'normalised sizes sum to one, fixed sizes as given, random sizes in [0,1), random compositions within their bounds (bounds given per composition or as one shared value on either side); non-trivial = histories with >= 100 draws')
     nworlds = 120 if tier == 'quick' else 3600
     jobs = []
@@ -95,6 +95,15 @@ def main(tier, seed, replay):
         wg.gen_globals(wrng, ctx, doc, exotic=False, force_surface=False)
         f, t, truth = random_feature(wrng, ctx)
         doc['features'] = [f]
+        tt = dict(t)
+        pts = [wg.point_in_feature(wrng, ctx, tt) for _ in range(12)]
+        cross = None
+        if wrng.random() < 0.5:
+            # a cross section through the feature: the 2D entry point draws from the same engine and post-processes velocity blocks
+            a, b = pts[0], pts[1]
+            if abs(a[0] - b[0]) + abs(a[1] - b[1]) > 1e-6:
+                cross = [[wg.R(a[0]), wg.R(a[1])], [wg.R(b[0]), wg.R(b[1])]]
+                doc['cross section'] = cross
         s1 = wrng.choice([0, 1, 7, 12345, 2 ** 31 - 1, wrng.randrange(2 ** 31)])
         s2 = s1
         while s2 % (2 ** 32) == s1 % (2 ** 32):
@@ -108,8 +117,6 @@ def main(tier, seed, replay):
         world(c, 2, p, seed=s1)
         world(c, 3, p, seed=s2)
         world(c, 4, pD, seed=wrng.randrange(2 ** 31))
-        tt = dict(t)
-        pts = [wg.point_in_feature(wrng, ctx, tt) for _ in range(12)]
         hist = []
         ncalls = wrng.randint(40, 80)
         for _ in range(ncalls):
@@ -125,7 +132,13 @@ def main(tier, seed, replay):
                 props.append((2, wrng.randrange(NCOMP), 0))
             if r < 0.2:
                 props.insert(0, (3, wrng.randrange(NCOMP), wrng.choice([1, 4])))
-            idx = [c.add('q3', wid, core.hx(x), core.hx(y), core.hx(z), core.hx(d), core.props_str(props)) for wid in (1, 2, 3, 4)]
+            if wrng.random() < 0.35:
+                props.insert(wrng.randrange(len(props) + 1), (5, 0, 0))      # a velocity block before / between / behind the grains
+            if cross and wrng.random() < 0.45:
+                (x2, z2), _s = wg.section_query(ctx, cross, wrng.uniform(-0.1, 1.1), d)
+                idx = [c.add('q2', wid, core.hx(x2), core.hx(z2), core.hx(d), core.props_str(props)) for wid in (1, 2, 3, 4)]
+            else:
+                idx = [c.add('q3', wid, core.hx(x), core.hx(y), core.hx(z), core.hx(d), core.props_str(props)) for wid in (1, 2, 3, 4)]
             hist.append((props, idx))
         jobs.append((c, truth, hist, fn, doc, (s1, s2)))
     core.run_cases('asan', [j[0] for j in jobs], PID, per_case_timeout=120)
